@@ -196,6 +196,8 @@ func ParseMxFunctionParameters(parameters string) ([]MurexFuncParam, error) {
 			case fpcDescStart, fpcDescEnd:
 				context = fpcDefaultRead
 				mfp[counter].HasDefault = true
+			default:
+				return nil, fmt.Errorf(fpeUnexpectedCharacter, string([]rune{r}), r, i+1, y, x)
 			}
 
 		case ']':
